@@ -26,19 +26,22 @@ open Manticore Manticore.SmbIR Manticore.Gen.SmbCommands
     only at the values the nested fields actually hold after `Marshal`, and only the clauses of
     `ConformsCore` are used.  For every command whose marshal program passes the static check, every
     codec table, and *all* field values: whenever the MS-CIFS encoder speaks (on the command as
-    `Marshal` leaves it), the bytes the code emits are its bytes. -/
+    `Marshal` leaves it), the bytes the code emits are its bytes — outside the recorded finding
+    `be:AndXOffset` (`andxOffsetBigEndian`: an AndX block whose offset has two different bytes; the AndX
+    words go out high byte first, `andx_offset_big_endian_counterexample`). -/
 theorem conforms_sound_at (C : Codecs) (c : Cmd) (hc : ConformsCore c = true)
     (env : Env) (bs : Bytes) (env' : Env) (sb : Bytes)
     (hn : ∀ b f typ, MStmt.sub b f typ ∈ c.marshal → ∀ v', env'.get f = some (.t v') →
       NestedConformsAt C typ v')
+    (hbe : andxOffsetBigEndian c.isAndX env' = false)
     (he : encodeCmd C c env = .ok bs) (ha : envAfterMarshal C c env = .ok env')
     (hs : Spec.Cifs.encode c env' = some sb) : bs = sb :=
-  conformsCore_sound_at C c hc env bs env' sb hn he ha hs
+  conformsCore_sound_at C c hc env bs env' sb hn hbe he ha hs
 
 /-- **`Conforms` is sound** with respect to the independent MS-CIFS encoder: a command that passes
     the kernel-decided static check, with nested encoders that conform, emits for all field values
-    exactly the bytes `Spec.Cifs.encode` produces from the declared field list — `WordCount`, AndX
-    block, the parameter fields in declaration order little-endian at their declared widths,
+    exactly the bytes `Spec.Cifs.encode` produces from the declared field list — `WordCount`, the AndX
+    block the command holds (command, reserved, offset; outside the finding `be:AndXOffset`), the parameter fields in declaration order little-endian at their declared widths,
     `ByteCount` little-endian, the data fields.  (`Spec.Cifs.encode` is `none` where MS-CIFS has no
     encoding for the values — an integer out of range of its type, an odd parameter length, more than
     255 words or 65535 bytes, a NUL inside a NUL-terminated string — or where the program has
@@ -47,10 +50,11 @@ theorem conforms_sound_at (C : Codecs) (c : Cmd) (hc : ConformsCore c = true)
 theorem conforms_sound (C : Codecs) (c : Cmd) (hc : Conforms c = true)
     (hn : ∀ s ∈ c.marshal, ∀ b f typ, s = .sub b f typ → NestedConforms C typ)
     (env : Env) (bs : Bytes) (env' : Env) (sb : Bytes)
+    (hbe : andxOffsetBigEndian c.isAndX env' = false)
     (he : encodeCmd C c env = .ok bs) (ha : envAfterMarshal C c env = .ok env')
     (hs : Spec.Cifs.encode c env' = some sb) : bs = sb :=
   conformsCore_sound_at C c (ConformsCore_of_Conforms hc) env bs env' sb
-    (fun b f typ hm v' _ => (hn _ hm b f typ rfl).at v') he ha hs
+    (fun b f typ hm v' _ => (hn _ hm b f typ rfl).at v') hbe he ha hs
 
 /-- **No declared field is left out**: for a conforming straight-line command every declared field
     belongs to the parameter block or to the data block, so `Spec.Cifs.encode` (which places the
@@ -135,16 +139,18 @@ theorem file_attributes_big_endian_counterexample :
   exact absurd this (by decide)
 
 /-- **The library's commands, all values**: a conforming command marshalled with the library's own
-    nested encoders emits the MS-CIFS bytes, outside the two recorded findings — no
-    `SMB_FILE_ATTRIBUTES` field, and no string field left in buffer format 0x03. -/
+    nested encoders emits the MS-CIFS bytes, outside the three recorded findings — no
+    `SMB_FILE_ATTRIBUTES` field, no string field left in buffer format 0x03, and no AndX offset whose
+    two bytes differ. -/
 theorem conforms_sound_std (c : Cmd) (hc : Conforms c = true)
     (env : Env) (bs : Bytes) (env' : Env) (sb : Bytes)
     (hattr : ∀ b f, MStmt.sub b f "SMB_FILE_ATTRIBUTES" ∉ c.marshal)
     (hfmt : ∀ b f, MStmt.sub b f "SMB_STRING" ∈ c.marshal →
       ∀ v', env'.get f = some (.t v') → v'.1.head? ≠ some 3)
+    (hbe : andxOffsetBigEndian c.isAndX env' = false)
     (he : encodeCmd SmbCodecs.std c env = .ok bs) (ha : envAfterMarshal SmbCodecs.std c env = .ok env')
     (hs : Spec.Cifs.encode c env' = some sb) : bs = sb := by
-  refine conformsCore_sound_at _ c (ConformsCore_of_Conforms hc) env bs env' sb ?_ he ha hs
+  refine conformsCore_sound_at _ c (ConformsCore_of_Conforms hc) env bs env' sb ?_ hbe he ha hs
   intro b f typ hm v' hv
   by_cases h1 : typ = "SMB_FILE_ATTRIBUTES"
   · subst h1; exact absurd hm (hattr b f)
@@ -154,19 +160,72 @@ theorem conforms_sound_std (c : Cmd) (hc : Conforms c = true)
 
 /-! ## header algebra -/
 
-/-- the AndX block of the spec and of the code's default agree: command 0xFF, reserved, offset 0 -/
-theorem andx_default_block (b : Bool) : andxBytes b = Manticore.Spec.Cifs.andxBlock b := by
-  cases b <;> rfl
+/-- the AndX block of the spec and of the code agree for a command on which no block was set: the
+    prologue of `Marshal` creates command 0xFF ("no further command"), reserved 0, offset 0, which is
+    what MS-CIFS prescribes (before and after the call) -/
+theorem andx_default_block (b : Bool) (env : Env) (h : env.get andxField = none) :
+    Manticore.Spec.Cifs.andxBlock b env = some (andxBytesOf b (prologueEnv b env)) ∧
+      Manticore.Spec.Cifs.andxBlock b (prologueEnv b env) = some (andxBytesOf b (prologueEnv b env)) := by
+  cases b with
+  | false => exact ⟨rfl, rfl⟩
+  | true =>
+    have hp : (prologueEnv true env).get andxField = some defaultAndX := by
+      unfold prologueEnv; simp [h, Env.get_set_eq]
+    unfold Spec.Cifs.andxBlock andxBytesOf
+    rw [h, hp]
+    exact ⟨rfl, by decide⟩
+
+/-- **AndX blocks are command / reserved / offset**: for every AndX block a command can hold
+    (`c, r < 256`, `o < 65536`), the four bytes `Marshal` puts at the head of the parameter block are
+    the MS-CIFS block — AndXCommand, AndXReserved, AndXOffset little-endian — unless the two bytes of
+    the offset differ (finding `be:AndXOffset`) -/
+theorem andx_block_eq_spec (andx : Bool) (env : Env) (ax : Bytes)
+    (hbe : andxOffsetBigEndian andx env = false) (hs : Manticore.Spec.Cifs.andxBlock andx env = some ax) :
+    andxBytesOf andx env = ax :=
+  (andxBlock_eq andx env env ax rfl hbe hs).1
+
+/-- finding `be:AndXOffset` at a witness: a READ_ANDX request chained to a CLOSE (0x04) at offset 0x0102
+    goes out with the AndX block `04 00 01 02`; MS-CIFS writes `04 00 02 01`.  The predicate holds of
+    exactly the blocks whose offset has two different bytes, and there the two encodings always differ. -/
+theorem andx_offset_big_endian_counterexample :
+    let env : Env := [("FID", .n 0), ("Offset", .n 0), ("MaxCountOfBytesToReturn", .n 0),
+      ("MinCountOfBytesToReturn", .n 0), ("Timeout", .n 0), ("Remaining", .n 0), (andxField, .ns [4, 0, 0x0102])]
+    andxOffsetBigEndian true env = true ∧
+    andxBytesOf true env = [0x04, 0x00, 0x01, 0x02] ∧
+    Manticore.Spec.Cifs.andxBlock true env = some [0x04, 0x00, 0x02, 0x01] ∧
+    encodeCmd SmbCodecs.std cmd_ReadAndxRequest env =
+      .ok [0x0a, 0x04, 0x00, 0x01, 0x02, 0, 0, 0, 0, 0, 0, 0, 0, 0, 0, 0, 0, 0, 0, 0, 0, 0, 0] ∧
+    Spec.Cifs.encode cmd_ReadAndxRequest env =
+      some [0x0a, 0x04, 0x00, 0x02, 0x01, 0, 0, 0, 0, 0, 0, 0, 0, 0, 0, 0, 0, 0, 0, 0, 0, 0, 0] := by
+  decide +kernel
+
+/-- the finding is exactly the disagreement: for an AndX block within range, code and MS-CIFS differ iff
+    the predicate holds -/
+theorem andx_offset_differs_iff (c r o : Nat) (hc : c < 256) (hr : r < 256) (ho : o < 65536) (env : Env)
+    (h : env.get andxField = some (.ns [c, r, o])) :
+    (Manticore.Spec.Cifs.andxBlock true env ≠ some (andxBytesOf true env)) ↔ andxOffsetBigEndian true env = true := by
+  have h1 : o / 256 % 256 = o / 256 := Nat.mod_eq_of_lt (by omega)
+  unfold Spec.Cifs.andxBlock andxBytesOf andxOffsetBigEndian
+  simp only [h, if_true, hc, hr, ho, and_self, Bool.true_and, natLe, List.cons_append, List.nil_append, h1,
+    ne_eq, Option.some.injEq, List.cons.injEq, true_and, and_true, bne_iff_ne]
+  constructor
+  · intro hne heq
+    apply hne
+    rw [heq]
+    exact ⟨rfl, rfl⟩
+  · intro hne heq
+    apply hne
+    have := congrArg UInt8.toNat heq.1
+    simp only [UInt8.toNat_ofNat'] at this
+    omega
 
 /-- **Parameter block**: `WordCount` (the number of words, AndX words included), then the AndX block
     and the parameter bytes unchanged, whenever these are an even number of bytes and at most 255
     words -/
-theorem param_block_eq_spec (andx : Bool) (P : Bytes)
-    (h1 : (Spec.Cifs.andxBlock andx ++ P).length % 2 = 0)
-    (h2 : (Spec.Cifs.andxBlock andx ++ P).length / 2 ≤ 255) :
-    paramBlock andx P =
-      UInt8.ofNat ((Spec.Cifs.andxBlock andx ++ P).length / 2) :: (Spec.Cifs.andxBlock andx ++ P) :=
-  paramBlock_eq_spec andx P h1 h2
+theorem param_block_eq_spec (andx : Bool) (ax P : Bytes) (hax : ax.length = 2 * andxWords andx)
+    (h1 : (ax ++ P).length % 2 = 0) (h2 : (ax ++ P).length / 2 ≤ 255) :
+    paramBlock andx ax P = UInt8.ofNat ((ax ++ P).length / 2) :: (ax ++ P) :=
+  paramBlock_eq_spec andx ax P hax h1 h2
 
 /-- **Data block**: `ByteCount` as a little-endian USHORT, then the bytes, up to 65535 bytes -/
 theorem data_block_eq_spec (D : Bytes) (h : D.length ≤ 65535) :
